@@ -18,8 +18,8 @@ def run(tier, seed):
     quick = tier == 'quick'
     tbuild = common.build_mmdump()
     mirs = [common.dump_mir('mimium_lang')[0], common.dump_mir('state_tree')[0]]
-    groups = ['op', 'st', 'ct', 'cl', 'fx']
-    files = common.corpus_files(groups)
+    groups = ['op', 'st', 'ct', 'cl', 'gn', 'fx']
+    files = common.corpus_files(groups, tier, seed)
     steps = 3 if quick else 6
     budget = 60 if quick else 300
     qto = 5000 if quick else 30000
